@@ -84,6 +84,8 @@ fn perturb_strategy(s: &mut FriReductionStrategy, i: usize) -> bool {
         (Fixed(v), 0) => match v.len() {
             2 => ConstantArityBits(v[0], v[1]),
             1 => MinSize(Some(v[0])),
+            // the single-element serialisation [0] has no neighbour of the same length: lengthen it
+            0 => Fixed(vec![1]),
             _ => return false,
         },
         (Fixed(mut v), k) if k >= 1 && k - 1 < v.len() => {
